@@ -62,12 +62,10 @@ lemma sumRange_nonneg (n : Nat) (f : Nat → Rat) (h : ∀ i, i < n → 0 ≤ f 
 
 /-! ### centre of mass -/
 
-/-- **Single bright pixel**: a pattern that is `w` at `(a, b)` and `0` elsewhere has first moments
-`w·x_a`, `w·y_b` — for unit brightness exactly the coordinates of that pixel. -/
-theorem com_single_pixel (nx ny a b : Nat) (ha : a < nx) (hb : b < ny) (w : Rat) (x y : Nat → Rat) :
-    comX nx ny (fun i j => if i = a ∧ j = b then w else 0) x = w * x a ∧
-    comY nx ny (fun i j => if i = a ∧ j = b then w else 0) y = w * y b := by
-  unfold comX comY comXTerm comYTerm
+lemma moment_single_pixel (nx ny a b : Nat) (ha : a < nx) (hb : b < ny) (w : Rat) (x y : Nat → Rat) :
+    momentX nx ny (fun i j => if i = a ∧ j = b then w else 0) x = w * x a ∧
+    momentY nx ny (fun i j => if i = a ∧ j = b then w else 0) y = w * y b := by
+  unfold momentX momentY comXTerm comYTerm
   constructor
   · have inner : ∀ i, i < nx → sumRange ny (fun j => (if i = a ∧ j = b then w else 0) * x i) = if i = a then w * x a else 0 := by
       intro i _
@@ -86,68 +84,125 @@ theorem com_single_pixel (nx ny a b : Nat) (ha : a < nx) (hb : b < ny) (w : Rat)
       · rw [if_neg hi, sumRange_congr _ _ (fun _ => 0) (fun j _ => by simp [hi]), sumRange_zero]
     rw [sumRange_congr _ _ _ inner, sumRange_single nx a ha]
 
-/-- The value returned is the **first moment**: it scales with the brightness of the pattern … -/
-theorem com_scales_with_intensity (nx ny : Nat) (I : Nat → Nat → Rat) (x : Nat → Rat) (c : Rat) :
-    comX nx ny (fun i j => c * I i j) x = c * comX nx ny I x := by
-  unfold comX comXTerm
+lemma total_single_pixel (nx ny a b : Nat) (ha : a < nx) (hb : b < ny) (w : Rat) :
+    total nx ny (fun i j => if i = a ∧ j = b then w else 0) = w := by
+  have h := (moment_single_pixel nx ny a b ha hb w (fun _ => 1) (fun _ => 1)).1
+  unfold momentX comXTerm at h
+  unfold total
+  simpa using h
+
+lemma moment_scale (nx ny : Nat) (I : Nat → Nat → Rat) (x : Nat → Rat) (c : Rat) :
+    momentX nx ny (fun i j => c * I i j) x = c * momentX nx ny I x := by
+  unfold momentX comXTerm
   rw [← sumRange_mul_left]
   apply sumRange_congr; intro i _
   rw [← sumRange_mul_left]
   apply sumRange_congr; intro j _
   ring
 
-/-- … and shifting all coordinates by `d` shifts it by `d · (total intensity)`. -/
-theorem com_translate (nx ny : Nat) (I : Nat → Nat → Rat) (x : Nat → Rat) (d : Rat) :
-    comX nx ny I (fun i => x i + d) = comX nx ny I x + d * total nx ny I := by
-  unfold comX comXTerm total
+lemma total_scale (nx ny : Nat) (I : Nat → Nat → Rat) (c : Rat) :
+    total nx ny (fun i j => c * I i j) = c * total nx ny I := by
+  unfold total
+  rw [← sumRange_mul_left]
+  apply sumRange_congr; intro i _
+  rw [← sumRange_mul_left]
+
+lemma moment_translate (nx ny : Nat) (I : Nat → Nat → Rat) (x : Nat → Rat) (d : Rat) :
+    momentX nx ny I (fun i => x i + d) = momentX nx ny I x + d * total nx ny I := by
+  unfold momentX comXTerm total
   rw [← sumRange_mul_left, ← sumRange_add]
   apply sumRange_congr; intro i _
   rw [← sumRange_mul_left, ← sumRange_add]
   apply sumRange_congr; intro j _
   ring
 
-/-- **Weighted mean**: for a non-negative pattern of total intensity 1 (the normalisation abTEM's diffraction
-patterns have) the value is the intensity-weighted mean coordinate; in particular it lies between the smallest and
-the largest coordinate. -/
-theorem com_weighted_mean_of_unit_total (nx ny : Nat) (I : Nat → Nat → Rat) (x : Nat → Rat) (lo hi : Rat)
-    (hI : ∀ i j, i < nx → j < ny → 0 ≤ I i j) (htot : total nx ny I = 1) (hx : ∀ i, i < nx → lo ≤ x i ∧ x i ≤ hi) :
-    comX nx ny I x = comX nx ny I x / total nx ny I ∧ lo ≤ comX nx ny I x ∧ comX nx ny I x ≤ hi := by
-  refine ⟨by rw [htot, div_one], ?_, ?_⟩
-  · have h := com_translate nx ny I (fun i => x i - lo) lo
-    simp only [sub_add_cancel, htot, mul_one] at h
-    have hn : 0 ≤ comX nx ny I (fun i => x i - lo) := by
-      unfold comX comXTerm
-      apply sumRange_nonneg; intro i hi
-      apply sumRange_nonneg; intro j hj
-      exact mul_nonneg (hI i j hi hj) (by linarith [(hx i hi).1])
-    linarith
-  · have h := com_translate nx ny I (fun i => x i - hi) hi
-    simp only [sub_add_cancel, htot, mul_one] at h
-    have hn : 0 ≤ comX nx ny I (fun i => hi - x i) := by
-      unfold comX comXTerm
-      apply sumRange_nonneg; intro i hi'
-      apply sumRange_nonneg; intro j hj
-      exact mul_nonneg (hI i j hi' hj) (by linarith [(hx i hi').2])
-    have hneg : comX nx ny I (fun i => hi - x i) = - comX nx ny I (fun i => x i - hi) := by
-      have := com_scales_with_intensity nx ny I (fun i => hi - x i) (-1)
-      unfold comX comXTerm at this ⊢
-      rw [← neg_one_mul, ← sumRange_mul_left]
-      apply sumRange_congr; intro i _
-      rw [← sumRange_mul_left]
-      apply sumRange_congr; intro j _
-      ring
-    linarith
+lemma moment_neg (nx ny : Nat) (I : Nat → Nat → Rat) (x : Nat → Rat) :
+    momentX nx ny I (fun i => -x i) = -momentX nx ny I x := by
+  unfold momentX comXTerm
+  rw [neg_eq_neg_one_mul, ← sumRange_mul_left]
+  apply sumRange_congr; intro i _
+  rw [← sumRange_mul_left]
+  apply sumRange_congr; intro j _
+  ring
 
-/-- Negation witness for the known finding: the code returns the un-normalised first moment, so "the centre of mass
-of a single bright pixel is that pixel's coordinate" fails as soon as the pixel's brightness is not 1. -/
-theorem com_not_weighted_mean_counterexample :
-    ¬ ∀ (w : Rat) (x : Nat → Rat), w ≠ 0 → comX 1 1 (fun i j => if i = 0 ∧ j = 0 then w else 0) x = x 0 := by
-  intro h
-  have h1 := h 2 (fun _ => 1) (by norm_num)
-  have h2 := (com_single_pixel 1 1 0 0 (by omega) (by omega) 2 (fun _ => 1) (fun _ => 1)).1
-  rw [h2] at h1
-  norm_num at h1
+/-- **Weighted mean**: whenever the pattern has intensity (`total ≠ 0`) the value returned is the first moment divided
+by the total — the intensity-weighted mean coordinate — with no assumption on the normalisation of the pattern. -/
+theorem com_weighted_mean (nx ny : Nat) (I : Nat → Nat → Rat) (x : Nat → Rat) (h : total nx ny I ≠ 0) :
+    comX nx ny I x = momentX nx ny I x / total nx ny I := by
+  unfold comX comXDiv comTotalGuard
+  simp [h]
 
+theorem comY_weighted_mean (nx ny : Nat) (I : Nat → Nat → Rat) (y : Nat → Rat) (h : total nx ny I ≠ 0) :
+    comY nx ny I y = momentY nx ny I y / total nx ny I := by
+  unfold comY comYDiv comTotalGuard
+  simp [h]
+
+/-- A pattern without intensity has centre of mass 0 (no `0/0`). -/
+theorem com_empty_pattern (nx ny : Nat) (x : Nat → Rat) : comX nx ny (fun _ _ => 0) x = 0 := by
+  have ht : total nx ny (fun _ _ => (0 : Rat)) = 0 := by
+    unfold total
+    rw [sumRange_congr _ _ (fun _ => 0) (fun i _ => sumRange_zero ny), sumRange_zero]
+  have hm : momentX nx ny (fun _ _ => (0 : Rat)) x = 0 := by
+    unfold momentX comXTerm
+    rw [sumRange_congr _ _ (fun _ => 0) (fun i _ => by
+      rw [sumRange_congr _ _ (fun _ => 0) (fun j _ => by ring), sumRange_zero]), sumRange_zero]
+  unfold comX comXDiv comTotalGuard
+  rw [ht, hm]; simp
+
+/-- **Single bright pixel**: whatever its brightness `w ≠ 0`, the centre of mass is that pixel's coordinates. -/
+theorem com_single_pixel (nx ny a b : Nat) (ha : a < nx) (hb : b < ny) (w : Rat) (hw : w ≠ 0) (x y : Nat → Rat) :
+    comX nx ny (fun i j => if i = a ∧ j = b then w else 0) x = x a ∧
+    comY nx ny (fun i j => if i = a ∧ j = b then w else 0) y = y b := by
+  have ht := total_single_pixel nx ny a b ha hb w
+  have hm := moment_single_pixel nx ny a b ha hb w x y
+  constructor
+  · rw [com_weighted_mean _ _ _ _ (by rw [ht]; exact hw), hm.1, ht]; field_simp
+  · rw [comY_weighted_mean _ _ _ _ (by rw [ht]; exact hw), hm.2, ht]; field_simp
+
+/-- The centre of mass does **not** depend on the brightness scale of the pattern (dose, normalisation) … -/
+theorem com_invariant_under_scaling (nx ny : Nat) (I : Nat → Nat → Rat) (x : Nat → Rat) (c : Rat) (hc : c ≠ 0)
+    (ht : total nx ny I ≠ 0) : comX nx ny (fun i j => c * I i j) x = comX nx ny I x := by
+  rw [com_weighted_mean _ _ _ _ (by rw [total_scale]; exact mul_ne_zero hc ht), com_weighted_mean _ _ _ _ ht,
+    moment_scale, total_scale]
+  field_simp
+
+/-- … and shifting all coordinates by `d` shifts it by exactly `d`. -/
+theorem com_translate (nx ny : Nat) (I : Nat → Nat → Rat) (x : Nat → Rat) (d : Rat) (ht : total nx ny I ≠ 0) :
+    comX nx ny I (fun i => x i + d) = comX nx ny I x + d := by
+  rw [com_weighted_mean _ _ _ _ ht, com_weighted_mean _ _ _ _ ht, moment_translate]
+  field_simp
+
+/-- For a non-negative pattern with intensity the centre of mass lies between the smallest and the largest coordinate. -/
+theorem com_between (nx ny : Nat) (I : Nat → Nat → Rat) (x : Nat → Rat) (lo hi : Rat)
+    (hI : ∀ i j, i < nx → j < ny → 0 ≤ I i j) (ht : total nx ny I ≠ 0) (hx : ∀ i, i < nx → lo ≤ x i ∧ x i ≤ hi) :
+    lo ≤ comX nx ny I x ∧ comX nx ny I x ≤ hi := by
+  have htn : 0 ≤ total nx ny I := by
+    unfold total
+    apply sumRange_nonneg; intro i hi'
+    apply sumRange_nonneg; intro j hj
+    exact hI i j hi' hj
+  have htp : 0 < total nx ny I := lt_of_le_of_ne htn (Ne.symm ht)
+  have h1 : 0 ≤ momentX nx ny I (fun i => x i - lo) := by
+    unfold momentX comXTerm
+    apply sumRange_nonneg; intro i hi'
+    apply sumRange_nonneg; intro j hj
+    exact mul_nonneg (hI i j hi' hj) (by linarith [(hx i hi').1])
+  have h2 : 0 ≤ momentX nx ny I (fun i => hi - x i) := by
+    unfold momentX comXTerm
+    apply sumRange_nonneg; intro i hi'
+    apply sumRange_nonneg; intro j hj
+    exact mul_nonneg (hI i j hi' hj) (by linarith [(hx i hi').2])
+  have e1 : momentX nx ny I (fun i => x i - lo) = momentX nx ny I x - lo * total nx ny I := by
+    have := moment_translate nx ny I (fun i => x i - lo) lo
+    simp only [sub_add_cancel] at this
+    linarith
+  have e2 : momentX nx ny I (fun i => hi - x i) = hi * total nx ny I - momentX nx ny I x := by
+    have hf : (fun i => hi - x i) = (fun i => -x i + hi) := by funext i; ring
+    rw [hf, moment_translate, moment_neg]; ring
+  rw [com_weighted_mean _ _ _ _ ht]
+  constructor
+  · rw [le_div_iff₀ htp]; linarith
+  · rw [div_le_iff₀ htp]; linarith
 
 /-- `com = com_x + 1j * com_y` packs the two real moments into one complex number: real part `x`, imaginary part `y`. -/
 theorem comPack_re_im (cx cy : ℝ) :
@@ -188,10 +243,10 @@ theorem com_single_pixel_is_its_frequency (nx ny a b : Nat) (ha : a < nx) (hb : 
   have hu : ¬ ("1/Å" = "mrad") := by decide
   simp only [hu, if_false, if_true]
   constructor
-  · have h := com_single_pixel nx ny a b ha hb 1 (fun i => (coords nx sx false).getD i 0) (fun j => (coords ny sy false).getD j 0)
+  · have h := com_single_pixel nx ny a b ha hb 1 one_ne_zero (fun i => (coords nx sx false).getD i 0) (fun j => (coords ny sy false).getD j 0)
     rw [h.1, h.2, coords_unshifted nx sx (by omega), coords_unshifted ny sy (by omega)]
     simp [List.getD_eq_getElem?_getD, ha, hb]
-  · have h := com_single_pixel nx ny a b ha hb 1 (fun i => (coords nx sx true).getD i 0) (fun j => (coords ny sy true).getD j 0)
+  · have h := com_single_pixel nx ny a b ha hb 1 one_ne_zero (fun i => (coords nx sx true).getD i 0) (fun j => (coords ny sy true).getD j 0)
     rw [h.1, h.2, coords_shifted, coords_shifted]
     simp [List.getD_eq_getElem?_getD, ha, hb]
 
@@ -320,7 +375,8 @@ example (n m : ℕ) [NeZero n] [NeZero m] (kx ky : ZMod n × ZMod m → ℝ)
   integrate_gradient_recovers_field_minus_mean (zmodPair2 n m) kx ky (0, 0) (zmodPair2_hasDC n m) hk0 φ gx gy hgx hgy
 
 /-! ### non-vacuity -/
-example : comX 2 2 (fun i j => ((2 * i + j + 1 : Nat) : Rat)) (fun i => if i = 0 then -1 else 1) = 4 := by decide +kernel
+example : comX 2 2 (fun i j => ((2 * i + j + 1 : Nat) : Rat)) (fun i => if i = 0 then -1 else 1) = 2 / 5 := by decide +kernel
+example : comX 2 2 (fun _ _ => 0) (fun _ => 1) = 0 := by decide +kernel
 example : centerOfMass 3 3 (fun i j => if i = 1 ∧ j = 0 then 1 else 0) (1/2) (1/2) false "1/Å" = .ok (1/2, 0) := by
   decide +kernel
 example : total 1 1 (fun _ _ => 1) = 1 := by decide +kernel
